@@ -114,8 +114,13 @@ def copt(x, f=str) -> str:
 
 
 def cstr(s: str) -> str:
-    assert all(32 <= ord(ch) < 127 or ch in '\n\t' for ch in s), s
-    return '"' + s.replace('"', '""') + '"%string'
+    if all(32 <= ord(ch) < 127 or ch in '\n\t' for ch in s):
+        return '"' + s.replace('"', '""') + '"%string'
+    # anything else (it only arises from unexpected implementation output): the UTF-8 bytes, constructor by constructor
+    t = "String.EmptyString"
+    for b in reversed(s.encode("utf-8", "surrogatepass")):
+        t = f"(String.String (Ascii.ascii_of_nat {b}) {t})"
+    return t
 
 
 def float_bits(x: float) -> int:
